@@ -2,4 +2,5 @@ SPECIFICATION Spec
 CONSTANT Deep = FALSE
 INVARIANT EmitInv
 INVARIANT OrderIrrelevant
+INVARIANT BaseAccepted
 CHECK_DEADLOCK FALSE
